@@ -28,6 +28,14 @@ NOTES = {
     "C09-7B": "the change makes QUSO accept a key of three distinct variables; C05's clause (quadratic types must raise KeyError), caught by C05",
     "C01-7B": "reduction-free spin forms lose a coefficient when one monomial is stored under two key orders; C04's clause (conversions "
               "without reduction preserve the function), caught by C04 and C05",
+    "C02-8C": "NOT caught, deliberately: it needs suppress_warnings=True on a constraint that cannot be satisfied; the statement's "
+              "carve-out is tied to the warning, which the caller has switched off - and the unchanged library itself adds a penalty "
+              "below lam (and no warning) for lt_zero with min P = 0 under suppress_warnings=True, so nothing is pinned there",
+    "C19-8B": "NOT caught (open): needs a recorded 'ge' constraint whose polynomial has a sympy coefficient in the info round trip; "
+              "C19's info models have numeric constraints only (a first attempt to generate symbolic ones needed the same change in "
+              "three oracles and was not finished in this session)",
+    "C09-8B": "Problem.solve_bruteforce no longer forwards positional penalty weights: C10's clause (problem-specific solve_bruteforce), "
+              "caught by C10",
     "C09-5C": "NOT caught, deliberately (the same change as C09-2A, written independently): Matrix models whose terms cancelled are "
               "enumerated over their reported variables, which is what the labelled types of the unchanged library do",
     "C09-2A": "NOT caught, deliberately: for a Matrix model whose terms cancelled the change returns assignments over the "
